@@ -350,10 +350,10 @@ class SimSSHServer:
         return blob
 
     # ------------------------------------------------------------ group exchange policy
-    def choose_group(self, mn, n, mx):
-        """Return modulus size in bits, or None for refusal."""
+    def choose_group(self, mn, n, mx, alg=None):
+        """Return modulus size in bits, or None for refusal.  A server may keep a different moduli set per group-exchange algorithm."""
         gex = self.p.get('gex', {})
-        sizes = sorted(gex.get('sizes', [2048, 3072, 4096, 6144, 8192]))
+        sizes = sorted(gex.get('sizes_by_alg', {}).get(alg, gex.get('sizes', [2048, 3072, 4096, 6144, 8192])))
         style = gex.get('style', 'strict')
         if style == 'strict':
             if mx < mn:
@@ -483,7 +483,7 @@ class SimSSHServer:
             else:
                 yield ('close',)
                 return
-            size = self.choose_group(mn, n, mx)
+            size = self.choose_group(mn, n, mx, kexs)
             self.log['gex_requests'].append({'conn': pc.ordinal, 'alg': kexs, 'min': mn, 'n': n, 'max': mx, 'answer': size, 'delivered': False})
             log['stage'] = 'gex_request'
             if size is None:
